@@ -46,13 +46,33 @@ def children(ctx):
     ff = ["ff", ["clk", "d"], ["q"]]
     out.append(("with_flop", mkspec("with_flop", I("ck", "x") + [("r0.clk", "bb_input", ["ck"]), ("r0.d", "bb_input", ["x"]), ("r0.q", "bb_output", []), ("qb", "buf", []), ("y", "xor", ["qb", "x"], True)],
                                     edges=[("r0.q", "qb")], bbs={"r0": ff})))
+    # feed-through port: an input that is also marked as an output of the child
+    out.append(("feedthrough", mkspec("feedthrough", [("en", "input", [], True), ("d", "input", []), ("q", "and", ["en", "d"], True), ("r", "not", ["en"], True)])))
     for cid, s in F.f_rand(ctx.seed + 77, 6 if ctx.quick else 40, consts=None):
         out.append((f"rand{cid[2]}", s))
     return out
 
 
+SUFFIX_BOX = ["sff", ["CK", "SCK", "D", "SD"], ["Q", "NQ"]]
+
+
+def suffix_circuit():
+    """two instances of a box whose pin names are suffixes of one another (CK/SCK, D/SD, Q/NQ)"""
+    I = lambda *ns: [(n, "input", []) for n in ns]
+    nodes = I("clk", "sclk", "a", "b") + [("q0", "buf", []), ("nq0", "buf", []), ("q1", "buf", []), ("g", "xor", ["q0", "nq0", "q1"], True)]
+    edges = []
+    for inst, conn in (("f0", {"CK": "clk", "SCK": "sclk", "D": "a", "SD": "b", "Q": "q0", "NQ": "nq0"}), ("f1", {"CK": "clk", "D": "g", "SD": "a", "Q": "q1"})):
+        for p_ in SUFFIX_BOX[1]:
+            nodes.append((f"{inst}.{p_}", "bb_input", [conn[p_]] if p_ in conn else []))
+        for p_ in SUFFIX_BOX[2]:
+            nodes.append((f"{inst}.{p_}", "bb_output", []))
+            if p_ in conn:
+                edges.append((f"{inst}.{p_}", conn[p_]))
+    return mkspec("suffix", nodes, edges=edges, bbs={"f0": SUFFIX_BOX, "f1": SUFFIX_BOX})
+
+
 def all_cases(ctx):
-    cs = []
+    cs = [(("strip", "suffix-pins"), ("strip", suffix_circuit(), None))]
     ch = children(ctx)
     nmaps = 3 if ctx.quick else 6
     for pn, p in parents():
@@ -184,6 +204,18 @@ def run(ctx):
 
     ctx.functions(cg.Circuit.add_subcircuit, cg.Circuit.add_blackbox, cg.Circuit.fill_blackbox, tx.strip_blackboxes)
     for cid, (pspec, c1, c2) in ctx.cases(all_cases(ctx)):
+        if pspec == "strip":
+            spec = c1
+            ctx.sample({"case": cid, "circuit": spec})
+            for ign in (None, "CK", ["CK"], ["Q"], ["D", "Q"], ["SCK", "NQ"], ["CK", "SCK", "Q"], ["D"], ["SD", "NQ", "CK"]):
+                r, e = call(tx.strip_blackboxes, build(spec), ign)
+                det = {"case": cid, "circuit": spec, "ignore_pins": ign}
+                if e is not None:
+                    ctx.side("strip_blackboxes-raises", False, f"strip_blackboxes:raises:{type(e).__name__}", f"strip_blackboxes raised {e!r}", det)
+                else:
+                    ig = [] if ign is None else ([ign] if isinstance(ign, str) else ign)
+                    same_relation(ctx, "strip_blackboxes", Net.of(r), Net.from_spec(ref_strip_bb(spec, ig)), det, "strip_blackboxes")
+            continue
         rng = random.Random(f"c06-{ctx.seed}-{cid}")
         c = build(pspec)
         cur = pspec
